@@ -767,6 +767,7 @@ def cex_data(scenario, shape, prs, v, **params):
                 prs=[[p.id, p.src, p.dst] for p in prs], label=v.label,
                 world=v.world, op_index=getattr(v, 'op_index', None),
                 conflicts=getattr(v, 'conflicts', 0), differs=getattr(v, 'differs', 0),
+                merge_decisions=list(getattr(v, 'merge_decisions', [])),
                 prefs_ok=getattr(v, 'prefs_ok', False), params=params,
                 oplog=[' '.join(o) for o in v.oplog][-40:])
 
@@ -835,6 +836,37 @@ def _third_party_callback(data):
     return cb
 
 
+def nontrivial_merge(cwd, full):
+    """Does this `git merge` command create a merge commit (git's own reduction of the heads:
+    heads already merged or dominated by another head are dropped; one remaining head that
+    contains HEAD is a fast-forward unless --no-ff)?  Returns the reduced heads or []."""
+    import shlex
+    import subprocess
+
+    def g(*a):
+        return subprocess.run(['git'] + list(a), cwd=cwd, stdout=subprocess.PIPE, stderr=subprocess.PIPE).returncode
+    srcs = [t for t in shlex.split(full)[2:] if not t.startswith('--')]
+    live = [x for x in srcs if g('merge-base', '--is-ancestor', x, 'HEAD') != 0]
+    red = []
+    for k, x in enumerate(live):
+        dom = False
+        for j, y in enumerate(live):
+            if j == k:
+                continue
+            if g('merge-base', '--is-ancestor', x, y) == 0:
+                if g('merge-base', '--is-ancestor', y, x) == 0 and k < j:
+                    continue
+                dom = True
+                break
+        if not dom:
+            red.append(x)
+    if not red:
+        return []
+    if len(red) == 1 and g('merge-base', '--is-ancestor', 'HEAD', red[0]) == 0 and '--no-ff' not in full:
+        return []
+    return red
+
+
 def replay_on_real_git(data, crash_after_pushes=None, interference=None):
     """Build the model's repository with /usr/bin/git and run the real code.
     Returns (violated labels, outcome)."""
@@ -857,7 +889,16 @@ def replay_on_real_git(data, crash_after_pushes=None, interference=None):
         if interference is None:
             interference = _third_party_callback(data)
 
+        decisions = list(data.get('merge_decisions') or [])
+
         def cmd(self, command, *args, **kw):
+            if command.startswith('git merge ') and decisions and self is repo:
+                # the model's conflict decisions, imposed in order on the merges that are neither
+                # "already up to date" nor fast-forwards (the real repositories never conflict)
+                full = command % args if args else command
+                if nontrivial_merge(self.cmd_directory, full) and decisions.pop(0):
+                    from bert_e.lib.simplecmd import CommandError
+                    raise CommandError('Command %s returned with code 1: CONFLICT (content): as the model says' % full)
             if command.startswith('git push'):
                 if interference is not None:
                     interference(world, command % args if args else command)
